@@ -41,6 +41,8 @@ def do_call(obj, call):
             elif o[0] == "tell":
                 r = obj.tell()
         return r
+    if op == "unlock":
+        return obj.unlock()
     if op in ("chain", "walk") or (op == "open" and hasattr(obj, "kind")):
         return obj.run()
     if op == "paths":
@@ -130,6 +132,11 @@ def main():
     if "max_inflate" in exp:
         ok = inflated[0] <= exp["max_inflate"]
         print(f"{'MATCH' if ok else 'MISMATCH'} largest inflate output {inflated[0]} (bound {exp['max_inflate']})")
+        return 0 if ok else 1
+    if "unlock" in exp:
+        outcome, state_ok, exc = res
+        ok = outcome == exp["unlock"] and state_ok
+        print(f"{'MATCH' if ok else 'MISMATCH'} unlock outcome {outcome} {exc} (expected {exp['unlock']}), configuration state as required: {state_ok}")
         return 0 if ok else 1
     if exp.get("terminates"):
         ok = res is True
